@@ -57,3 +57,40 @@ impl SegmentRegistry {
         Ok(combine(src, dst, core_segments, non_core_segments))
     }
 }
+
+/// Verification hook (compiled only with the `verif-hooks` feature).
+#[cfg(feature = "verif-hooks")]
+impl SegmentRegistry {
+    /// Like [`SegmentRegistry::paths`], but every segment is beaconed with its own timestamp,
+    /// initial segment id and hop expiry, chosen by `params(kind, index)` (kind 0 = up, 1 = core,
+    /// 2 = down; index = position in the listing).
+    pub fn verif_paths_with(
+        &self,
+        src: IsdAsn,
+        dst: IsdAsn,
+        topo: &ScionTopology,
+        mut params: impl FnMut(u8, usize) -> (chrono::DateTime<chrono::Utc>, u16, u8),
+    ) -> anyhow::Result<Vec<ScionPath>> {
+        let segments = self.endhost_list_segments(src, src, dst)?;
+        let mut beacon = |kind: u8,
+                          list: &[&crate::network::scion::segment::model::LinkSegment]|
+         -> anyhow::Result<Vec<sciparse::segment::SignedPathSegment>> {
+            list.iter()
+                .enumerate()
+                .map(|(i, segment)| {
+                    let (timestamp, segment_id, expiry) = params(kind, i);
+                    segment.to_path_segment(topo, timestamp, segment_id, expiry, false)
+                })
+                .collect()
+        };
+        let up = beacon(0, &segments.up)?;
+        let core = beacon(1, &segments.core)?;
+        let down = beacon(2, &segments.down)?;
+        Ok(combine(
+            src,
+            dst,
+            core.into_iter().collect(),
+            down.into_iter().chain(up).collect(),
+        ))
+    }
+}
